@@ -14,7 +14,7 @@ ATOL = 1e-9
 def _close(a, b, rtol=RTOL, atol=ATOL):
     a = np.asarray(a, dtype=float)
     b = np.asarray(b, dtype=float)
-    return a.shape == b.shape and bool(np.allclose(a, b, rtol=rtol, atol=atol))
+    return a.shape == b.shape and bool(np.allclose(a, b, rtol=rtol, atol=atol, equal_nan=True))   # a NaN / inf the user function returns is its value
 
 
 def _f1(c, yx):
@@ -230,7 +230,11 @@ def _gen_irr(rng, tier):
         pts = gens.reals(rng, (n, 2), -5.0, 5.0, special=False)
         if n > 2 and rng.random() < 0.3:
             pts[1] = pts[0]                       # repeated coordinates are legal in an irregular grid
-        yield {"points": pts, "coef": _coef(rng), "as_tuples": bool(rng.getrandbits(1))}
+        coef = _coef(rng)
+        if rng.random() < 0.08:
+            # "for every user function": one whose values are not finite (a pole, an undefined region) -- the container carries what it returned
+            coef[rng.choice([0, 6])] = rng.choice([float("inf"), float("-inf"), float("nan")])
+        yield {"points": pts, "coef": coef, "as_tuples": bool(rng.getrandbits(1))}
 
 
 @bounded("C17", "irregular-containers", gen=_gen_irr, nontrivial=lambda points, **k: points.shape[0] > 1)
